@@ -566,6 +566,8 @@ class CArr(np.ndarray):
         a = np.empty(np.shape(data), dtype=object)
         if a.shape == ():
             a[()] = data
+        elif a.size == 0:
+            pass
         else:
             src = np.asarray(data, dtype=object) if not isinstance(data, np.ndarray) else data
             it = np.nditer(a, flags=["multi_index", "refs_ok"], op_flags=["writeonly"])
@@ -1182,6 +1184,16 @@ class SArr:
         if self.ndim == 1:
             return self.copy()
         raise OutOfReach("flatten of 2-D symbolic array")
+
+    def nonzero(self):
+        """trusted: a.nonzero()[0] is the increasing list of all indices with a[k] != 0"""
+        if self.ndim != 1:
+            raise OutOfReach("nonzero of 2-D symbolic array")
+        from . import npstub
+        g = self._cell[0]
+        r = npstub.filtered_indices(self.shape[0], lambda k: g(k) != 0)
+        cur().ghost["nonzero_result"] = r
+        return (r, )
 
     def argsort(self):
         """trusted: a.argsort() is a permutation `order` of 0..n-1 with a[order] non-decreasing"""
